@@ -126,6 +126,31 @@ func store(name string, p unsafe.Pointer, v any) {
 	}
 }
 
+// typedPtr turns a component pointer handed out by the world into the typed pointer a Component value carries.
+func typedPtr(name string, p unsafe.Pointer) any {
+	switch name {
+	case "P1":
+		return (*P1)(p)
+	case "P2":
+		return (*P2)(p)
+	case "P3":
+		return (*P3)(p)
+	case "P4":
+		return (*P4)(p)
+	case "P5":
+		return (*P5)(p)
+	case "V1":
+		return (*V1)(p)
+	case "V2":
+		return (*V2)(p)
+	case "V3":
+		return (*V3)(p)
+	case "Rel":
+		return (*RelA)(p)
+	}
+	panic("no typed pointer for " + name)
+}
+
 // verify reads a component through its pointer and checks every canary it references.
 func (g *gcWorld) verify(e ecs.Entity, name string, p unsafe.Pointer, want []uint64) bool {
 	bad := func(what string) bool {
@@ -332,7 +357,7 @@ func (g *gcWorld) opCreate(typedOnly bool) {
 	w, r := g.w, g.r
 	name := Pick(r, g.pids)
 	id := g.ids[name]
-	path := r.Intn(7)
+	path := r.Intn(8)
 	if typedOnly {
 		path = r.Intn(2) * 6 // 0 or 6: typed stores only
 	}
@@ -388,6 +413,56 @@ func (g *gcWorld) opCreate(typedOnly bool) {
 			}
 		}
 		g.cov.N["literal_shape_calls"]++
+	case 7: // clone of a template entity: every value is supplied as a pointer into the world's own storage, and the
+		// clone goes into the template's own table (which may have to grow for it)
+		cands := []ecs.Entity{}
+		for _, e := range g.alive() {
+			if len(g.model[e]) > 0 && !g.plain[e]["Rel"] {
+				cands = append(cands, e)
+			}
+		}
+		if len(cands) == 0 {
+			return
+		}
+		tmpl := Pick(r, cands)
+		byID := map[ecs.ID]string{}
+		for n, i := range g.ids {
+			byID[i] = n
+		}
+		comps := []ecs.Component{}
+		for _, cid := range w.Ids(tmpl) {
+			n, ok := byID[cid]
+			if !ok {
+				return // a filler type: not something this harness can address by a typed pointer
+			}
+			comps = append(comps, ecs.Component{ID: cid, Comp: typedPtr(n, w.Get(tmpl, cid))})
+		}
+		var e ecs.Entity
+		switch r.Intn(3) {
+		case 0:
+			e = w.NewEntityWith(comps...)
+		case 1:
+			e = ecs.NewBuilderWith(w, comps...).New()
+		default:
+			e = w.NewEntity()
+			w.Assign(e, comps...)
+		}
+		for n, ids := range g.model[tmpl] {
+			tracked := false
+			if len(ids) > 0 {
+				_, tracked = g.tracked[ids[0]]
+			}
+			g.attach(e, n, ids, tracked)
+		}
+		if g.model[e] == nil {
+			g.model[e] = map[string][]uint64{}
+		}
+		for n, has := range g.plain[tmpl] {
+			if has {
+				g.setPlain(e, n, true)
+			}
+		}
+		g.cov.N["template_clones"]++
 	default: // NewBatchQ of zeroed components + writes through Query.Get
 		q := ecs.NewBuilder(w, id, g.ids["V3"]).NewBatchQ(1 + r.Intn(5))
 		for q.Next() {
